@@ -1235,7 +1235,7 @@ class _PartB:
         sel = rng.sample(keys, min(144 if quick else 1200, len(keys)))
         jobs = [([(k, progs[k]) for k in ch], 2, 170 if quick else 1500, 2 if quick else 10, rep.seed, False)
                 for ch in _chunks(sel, NPROC * (1 if quick else 3))]
-        rnd = random_container_programs(rng, 32 if quick else 480)
+        rnd = random_container_programs(rng, 32 if quick else 320)
         jobs += [([(k, None) for k in ch], 1, 30 if quick else 200, 10 if quick else 60, rep.seed + 7, True)
                  for ch in _chunks(rnd, NPROC // 2 if quick else NPROC)]
         self.nprog = len(sel) + len(rnd)
@@ -1285,8 +1285,10 @@ class _PartC:
                               emitting="TRUE"),
                        pc_cfg(O="O4", NP="NP12", T="T1", N=5, E="TRUE", props=False, emit="ACTION_CONSTRAINT EmitTransitions",
                               emitting="TRUE", view=True)]
+            # (every complete path of <= 4 calls, and every transition of the 5-call graph over 4 origins,
+            #  each with an access path)
         self.emit = pool.map_async(_pc_emit, [(c, 0, 1) for c in sc_cfgs])
-        self.rprogs = race_programs(rng, 38 if quick else 400)
+        self.rprogs = race_programs(rng, 38 if quick else 300)
         jobs = [(ch, 2, 120 if quick else 600, 3 if quick else 20, rep.seed, False) for ch in _chunks(self.rprogs, NPROC)]
         jobs += [(ch, 1, 50 if quick else 400, 6 if quick else 30, rep.seed + 1, True)
                  for ch in _chunks(self.rprogs[:16 if quick else 160], NPROC // 2)]
@@ -1308,7 +1310,7 @@ class _PartC:
         if quick and len(scen) > 3200:
             scen = rng.sample(scen, 3200)
         rep.extra["pm_scenarios_replayed"] = len(scen)
-        nrw = 30 if quick else 800
+        nrw = 30 if quick else 200
         jobs = [(ch, rep.seed * 100 + i, nrw, 14 if quick else 24)
                 for i, ch in enumerate(_chunks(scen, NPROC * (1 if quick else 4)))]
         self.run = pool.map_async(_pm_shard, jobs)
